@@ -230,6 +230,8 @@ func VerifyFunc(pkg *Pkg, cs *Contracts, key string) (fx *FnCtx, err error) {
 		switch o.fl {
 		case flBreak, flContinue:
 			fx.fail("break/continue escaped function body")
+		case flExit:
+			continue
 		}
 		if o.fl == flNormal && sig.Results().Len() > 0 {
 			// falling off the end of a function with results is impossible in valid Go
@@ -289,6 +291,20 @@ func (fx *FnCtx) finish(st *State) {
 	for _, p := range fx.fc.Params {
 		if v, ok := fx.entry.named[p.Name]; ok {
 			env.named[p.Name] = v
+		}
+	}
+	for _, ac := range fx.fc.AllCalls {
+		var conj []string
+		for _, rec := range st.calls {
+			if rec.key != ac.Callee {
+				continue
+			}
+			e2 := *env
+			e2.bound = rec.named
+			conj = append(conj, fx.specBool(&e2, ac.Expr))
+		}
+		if len(conj) > 0 {
+			fx.emit(st, "all-calls("+ac.Callee+")["+ac.Label+"]", "all-calls", ac.Tags, "(and "+strings.Join(conj, " ")+" true)", ac.Src, strings.Join(lastN(st.trace, 1), "; "))
 		}
 	}
 	for _, mc := range fx.fc.MustCalls {
